@@ -1332,11 +1332,18 @@ impl SubRule {
                                 }
                             },
                         }
+                    } else {
+                        return Err(RuleRuntimeError::UnknownVariable(num.clone()))
                     }
                 },
                 // ParseElement::Optional(vec, _, _) => unimplemented!(),
                 _ => unreachable!()
             }
+        }
+
+        // a structure without segments would put a blank syllable into the word
+        if syll.segments.is_empty() && !is_inserting {
+            return Err(RuleRuntimeError::SubstitutionSyll(err_pos))
         }
 
         if let Some(v) = var {
